@@ -22,6 +22,7 @@ Implementation: Recursive AST traversal with pattern classification using parent
 
 from __future__ import annotations
 
+import re
 from dataclasses import dataclass
 from typing import TYPE_CHECKING
 
@@ -350,7 +351,13 @@ def _is_matching_identifier(node: Node, identifier: str) -> bool:
     Returns:
         True if node is an identifier with the given name
     """
+    text = node.text
+    if text is None:
+        return False
+    if node.type == "string_literal":
+        # Inline format arguments: println!("{name}") / format!("{name:?}") use the variable
+        pattern = r"\{\s*" + re.escape(identifier) + r"\s*[:}]"
+        return re.search(pattern, text.decode(errors="replace")) is not None
     if node.type != "identifier":
         return False
-    text = node.text
-    return text is not None and text.decode() == identifier
+    return text.decode() == identifier
